@@ -170,8 +170,8 @@ func runC02M(k *kernel.K) {
 			return p.resp.Encode(req.Method)
 		})
 		cp := &c02Plan{id: cid, conn: ci, connect: true}
-		cp.reqBeh = []string{"pass", "mutate", "error"}[w.Pick([]int{5, 1, 2})]
-		cp.resBeh = []string{"pass", "mutate", "error"}[w.Pick([]int{5, 1, 2})]
+		cp.reqBeh = []string{"pass", "mutate", "error", "hijack"}[w.Pick([]int{10, 2, 4, 1})]
+		cp.resBeh = []string{"pass", "mutate", "error", "hijack"}[w.Pick([]int{10, 2, 4, 1})]
 		cp.parkReq, cp.parkRes = w.Chance(1, 3), w.Chance(1, 3)
 		plans[cid] = cp
 		mcn.connect = cp
@@ -360,6 +360,35 @@ func runC02M(k *kernel.K) {
 		cdesc := fmt.Sprintf("CONNECT #%d (%s:443, reqmod=%s resmod=%s, conn %s)", m.connect.id, m.host, m.connect.reqBeh, m.connect.resBeh, m.cl.Name)
 		cq, crs, ok := checkCommon(m.connect, cdesc)
 		if !ok {
+			continue
+		}
+		if m.connect.reqBeh == "hijack" || m.connect.resBeh == "hijack" {
+			// The CONNECT exchange itself was hijacked: the hijacker's bytes are the only answer,
+			// the proxy writes nothing (no 200) and closes the connection once the modifier returns.
+			phase := "res"
+			if m.connect.reqBeh == "hijack" {
+				phase = "req"
+				if len(crs) > 0 {
+					k.Fail("C02.resmod_once", map[string]string{"path": "hijacked_on_request", "mode": "mitm_connect"}, "%s: response modifier ran %d times although the request modifier hijacked the session", cdesc, len(crs))
+				}
+			}
+			k.Probe("mitm_connect_hijack_" + phase)
+			msgs := m.cl.PlainP.Msgs
+			if len(msgs) < 1 || msgs[0].Status != 599 || string(msgs[0].Body) != "HIJACKED" {
+				st := -1
+				if len(msgs) > 0 {
+					st = msgs[0].Status
+				}
+				k.Fail("C02.hijack_closed", map[string]string{"phase": phase, "mode": "mitm_connect"}, "%s: the client did not receive the hijacker's bytes as the answer to its CONNECT (%d responses, first status %d)", cdesc, len(msgs), st)
+			} else if len(msgs) > 1 || len(m.cl.PlainP.Raw) > 0 || m.cl.PlainP.Cur != nil {
+				k.Fail("C02.hijack_no_io", map[string]string{"phase": phase, "mode": "mitm_connect", "op": "write"}, "%s: bytes other than the hijacker's reached the client after the hijack (%d responses, %d further bytes)", cdesc, len(msgs), len(m.cl.PlainP.Raw))
+			}
+			m.cl.mu.Lock()
+			eof := m.cl.EOF
+			m.cl.mu.Unlock()
+			if !eof {
+				k.Fail("C02.hijack_closed", map[string]string{"phase": phase, "mode": "mitm_connect"}, "%s: at network quiescence the proxy has not closed the hijacked connection", cdesc)
+			}
 			continue
 		}
 		checkRes(m.connect, cq, crs, "mitm_connect", cdesc)
